@@ -11,7 +11,9 @@ Case language (all JSON-able):
   value spec       vs :=  ["i", n] | ["f", bits] | ["b", [byte..]] | ["t", [codepoint..]] | ["B", bool] | ["N"]
                         | ["l", [vs..]] | ["T", [vs..]] | ["s", [vs..]] | ["fs", [vs..]] | ["d", [[k, v]..]]
   wire spec        ws :=  ["wi", tbname, size, value] | ["wf", bits] | ["ws", vocab?, size, [byte..]]
-                        | ["wo", opentype, [ws..]] | ["wr", vs]          (wr: OPEN reference to an earlier object of shape vs)
+                        | ["wo", opentype, [ws..]] | ["wr", vs, argno]   (wr: OPEN reference to an earlier argument of shape vs)
+                        | ["wp", k]      (OPEN reference to the k-th ENCLOSING sequence, which is still open; k = 0 is the
+                                          sequence that directly contains the reference; the target must be a tuple)
 """
 import struct
 from zope.interface import implementer
@@ -144,8 +146,10 @@ def to_py(vs):
     raise ValueError(vs)
 
 
-def canon(o):
-    """python object -> canonical value spec (sets / dicts sorted by the repr of the canonical form)"""
+def canon(o, _stack=()):
+    """python object -> canonical value spec (sets / dicts sorted by the repr of the canonical form).  A cyclic object
+    (a container that contains itself) is cut where it re-enters an ancestor: ["P", k], k = number of container levels
+    between the occurrence's own container and that ancestor (0 = its own container)"""
     if isinstance(o, bool):
         return ["B", o]
     if isinstance(o, int):
@@ -158,16 +162,20 @@ def canon(o):
         return ["t", [ord(ch) for ch in o]]
     if o is None:
         return ["N"]
-    if isinstance(o, list):
-        return ["l", [canon(x) for x in o]]
-    if isinstance(o, tuple):
-        return ["T", [canon(x) for x in o]]
-    if isinstance(o, frozenset):
-        return ["fs", sorted((canon(x) for x in o), key=repr)]
-    if isinstance(o, set):
-        return ["s", sorted((canon(x) for x in o), key=repr)]
-    if isinstance(o, dict):
-        return ["d", sorted(([canon(a), canon(b)] for a, b in o.items()), key=repr)]
+    if isinstance(o, (list, tuple, set, frozenset, dict)):
+        for k, anc in enumerate(reversed(_stack)):
+            if anc is o:
+                return ["P", k]
+        st = _stack + (o,)
+        if isinstance(o, list):
+            return ["l", [canon(x, st) for x in o]]
+        if isinstance(o, tuple):
+            return ["T", [canon(x, st) for x in o]]
+        if isinstance(o, frozenset):
+            return ["fs", sorted((canon(x, st) for x in o), key=repr)]
+        if isinstance(o, set):
+            return ["s", sorted((canon(x, st) for x in o), key=repr)]
+        return ["d", sorted(([canon(a, st), canon(b, st)] for a, b in o.items()), key=repr)]
     return ["other", type(o).__name__]
 
 
@@ -215,6 +223,8 @@ def to_obj(vs):
         return "(%s [%s])" % (con, "; ".join(to_obj(x) for x in vs[1]))
     if k == "d":
         return "(ODict [%s] [%s])" % ("; ".join(to_obj(a) for a, b in vs[1]), "; ".join(to_obj(b) for a, b in vs[1]))
+    if k == "P":
+        return "(OPending %d)" % vs[1]
     raise ValueError(vs)
 
 
@@ -283,6 +293,8 @@ def to_wobj(ws):
         return "(WOpen %s [%s])" % (OTYPES[ws[1]], "; ".join(to_wobj(x) for x in ws[2]))
     if k == "wr":
         return "(WRef %s)" % to_obj(ws[1])
+    if k == "wp":
+        return "(WRef (OPending %d))" % ws[1]
     raise ValueError(ws)
 
 
@@ -317,7 +329,7 @@ class Enc:
         w = int_ws(n)
         self.wire(w)
 
-    def wire(self, ws, refs=None, text=False):
+    def wire(self, ws, refs=None, text=False, stack=()):
         """emit one wire tree; returns the receiver-side object id of its OPEN token (None for plain tokens)"""
         k = ws[0]
         if k == "wi":
@@ -339,9 +351,13 @@ class Enc:
         elif k == "wo":
             oc, objid = self.open(ws[1].encode())
             for x in ws[2]:
-                self.wire(x, refs, text=(ws[1] == "unicode"))
+                self.wire(x, refs, text=(ws[1] == "unicode"), stack=stack + (objid,))
             self.close(oc)
             return objid
+        elif k == "wp":
+            oc, _ = self.open(b"reference")
+            self.tok(tokens.INT, stack[len(stack) - 1 - ws[1]])
+            self.close(oc)
         elif k == "wr":
             # OPEN reference <objid> CLOSE, objid = the earlier positional argument number ws[2] of this call
             oc, _ = self.open(b"reference")
